@@ -437,13 +437,15 @@ func (e *Env) evalIdent(n *Node) specVal {
 			}
 		}
 	}
-	if e.fr != nil && !e.inOld {
+	if e.fr != nil {
 		at := e.retBlock
 		if e.li != nil {
 			at = e.li.header
 		}
 		if at != nil {
-			if sv, ok := e.sourceVar(name, at); ok {
+			// inside old(): only immutable SSA values (a local that is never re-assigned denotes the
+			// same value in every state); variables held in memory are read in the current state only
+			if sv, ok := e.sourceVarMode(name, at, e.inOld); ok {
 				return sv
 			}
 		}
@@ -596,6 +598,13 @@ func (e *Env) evalCall(n *Node) specVal {
 			}
 			if a, ok := x.typ.Underlying().(*types.Array); ok {
 				return specVal{t: fmt.Sprintf("%d", a.Len()), typ: tInt}
+			}
+			if mt, ok := x.typ.Underlying().(*types.Map); ok && fn.Name == "len" {
+				st := x.st
+				if st == nil {
+					st = e.st
+				}
+				return specVal{t: v.mapLen(st, mt, x.t), typ: tInt}
 			}
 			e.fail("len of %s", x.typ)
 		case "old":
@@ -774,6 +783,21 @@ func (e *Env) evalCall(n *Node) specVal {
 			q := fmt.Sprintf("a!q%d", v.smt.n)
 			return specVal{t: fmt.Sprintf("(forall ((%s Int)) (! (=> (< %s %s) (= (select %s %s) (select %s %s))) :pattern ((select %s %s))))",
 				q, q, v.alloc(e.old), v.heap(e.st, k), q, v.heap(e.old, k), q, v.heap(e.st, k), q), typ: tBool}
+		case "nvisited":
+			// nvisited(): how many keys the map range of the enclosing loop has produced so far
+			if e.li == nil {
+				e.fail("nvisited() outside a loop invariant")
+			}
+			for _, in := range e.li.header.Instrs {
+				if nx, ok := in.(*ssa.Next); ok {
+					if rg, ok := nx.Iter.(*ssa.Range); ok {
+						ck := visitCountKey(rg)
+						v.ensureKey(ck)
+						return specVal{t: v.heap(e.st, ck.Key), typ: tInt}
+					}
+				}
+			}
+			e.fail("nvisited(): the loop is not a map range")
 		case "visited":
 			// visited(k): key k has been produced by the map range of the enclosing loop
 			if e.li == nil {
@@ -889,6 +913,21 @@ func (e *Env) evalCall(n *Node) specVal {
 				}
 			}
 			return specVal{t: v.decVal("(tk.val "+tokT+")", ht), typ: ht}
+		case "tokkindb", "tokvalb":
+			// tokkindb(b, i) / tokvalb(b, i): kind and payload of the i-th token of blob b
+			b := e.eval(args[0])
+			i := e.eval(args[1])
+			_, toks, _, _, _ := v.blobFuns()
+			tokT := sel(app(toks, b.t), i.t)
+			if e.pats != nil {
+				if _, isQ := (*e.pats)[i.t]; isQ {
+					(*e.pats)[i.t] = append((*e.pats)[i.t], tokT)
+				}
+			}
+			if fn.Name == "tokkindb" {
+				return specVal{t: "(tk.kind " + tokT + ")", typ: tInt}
+			}
+			return specVal{t: "(tk.val " + tokT + ")", typ: tInt}
 		case "blobtail":
 			b := e.eval(args[0])
 			_, _, _, _, tail := v.blobFuns()
@@ -1138,6 +1177,10 @@ var _ = ssa.NaiveForm
 // latest DebugRef in a block that strictly dominates `at` (variables re-assigned inside a loop
 // have a phi at the header and are resolved through loopInfo.names instead).
 func (e *Env) sourceVar(name string, at *ssa.BasicBlock) (specVal, bool) {
+	return e.sourceVarMode(name, at, false)
+}
+
+func (e *Env) sourceVarMode(name string, at *ssa.BasicBlock, valuesOnly bool) (specVal, bool) {
 	var best *ssa.DebugRef
 	bestDepth, bestIdx := -1, -1
 	for _, b := range e.fr.fn.Blocks {
@@ -1177,6 +1220,9 @@ func (e *Env) sourceVar(name string, at *ssa.BasicBlock) (specVal, bool) {
 		if c, isConst := best.X.(*ssa.Const); isConst {
 			return specVal{t: e.v.constTerm(c), typ: c.Type(), st: e.st}, true
 		}
+		return specVal{}, false
+	}
+	if best.IsAddr && valuesOnly {
 		return specVal{}, false
 	}
 	if best.IsAddr {
